@@ -148,6 +148,18 @@ claim('C12', 'DESIGN.md 4/C12',
       'on the real classes (bitwise verbatim comparison, leak detection through re-run histories), plus trace validation.',
       'Bounded: 12 grid points, one concretisation per description and seed (3 in thorough); exception class not judged.')
 
+claim('C11', 'DESIGN.md 4/C11',
+      'TLA+ spec OmegaModels.tla: the defining pair sum (1/N) Sum_ij w_|i-j|, its weight form, the closed form for geometric weights '
+      'and the ring sum checked against each other by TLC in exact rational arithmetic for every N <= 8 (10) and sample weights '
+      '(ClosedFormEqualsPairSum, WeightFormEqualsPairSum, TermsAgreeWithDefinitions, RingSum, LimitAtOne, LimitAtZero, Bounded, '
+      'PairCount, KoyamaValidity); the exported weight-form terms evaluated for the real N (up to 10^4) and k and the model-object '
+      'machine (Construct / Calculate on grid families, Koyama parameter cases) replayed on the real classes; exact points against '
+      'TLC rationals',
+      'The definitions and their equivalence are TLC-checked statements; every shipped model class is compared with the exported '
+      'pair-sum term on Domain grids and 1e-4..1e3, with limits, bound, finiteness, independence of the other k and parameter rejection.',
+      'Tolerance 1e-8 relative (1e-10 at exact points); Koyama / NFJC weights are the models own kernels (structure, limits, bound, '
+      'totality judged) and are replayed for N <= 12 (40) only; float conditioning is observed through the comparison, not proved.')
+
 ALL = ['C%02d' % i for i in range(1, 19)]
 
 
